@@ -41,13 +41,13 @@ PrefixOk(ms) == \A i \in 1..Len(ms) : ms[i] \in Positional =>
                    \A j \in 1..(i - 1) : ms[j] \in Positional
 \* rename: the FIRST argument is published under another name than its Python parameter (_in_variable_names);
 \* members stay in parameter order, keyword callers and the wire use the public name
-Cases ==
+CasesN(N) ==
   \* dflt: every argument's TYPE declares a default value (Dflt(i)): an argument that is not passed is that value, on both paths
   \* aux: a second service declares the same method as an AUXILIARY one (SyncAuxProc) returning something else: it runs on the side,
   \*      the caller gets the PRIMARY method's result on both paths
   \* ostr: NullServer(ostr=True) - the direct caller gets the serialized response; the (lazily produced) result is serialized
   \*      while the context is still open, as over the wire
-  { c \in [style : Styles, ret : Rets, modes : UNION {[1..n -> Modes] : n \in 0..3}, rename : BOOLEAN, dflt : BOOLEAN, aux : BOOLEAN, ostr : BOOLEAN] :
+  { c \in [style : Styles, ret : Rets, modes : UNION {[1..n -> Modes] : n \in 0..N}, rename : BOOLEAN, dflt : BOOLEAN, aux : BOOLEAN, ostr : BOOLEAN] :
       /\ (c.aux => (c.style = "wrapped" /\ ~c.rename /\ ~c.dflt /\ ~c.ostr /\ c.ret \in {"one", "two", "none", "fault"}
                      /\ \A i \in 1..Len(c.modes) : c.modes[i] \in {"pos", "kw", "absent"}))
       /\ (c.ostr => (c.style = "wrapped" /\ ~c.rename /\ ~c.dflt /\ c.ret \in {"gen", "one", "two"}
@@ -65,6 +65,8 @@ Cases ==
       /\ (c.ret \in {"two", "three"} => c.style = "wrapped")
       \* pairwise: the richer modes only with the plain outcomes
       /\ ((\E i \in 1..Len(c.modes) : c.modes[i] \in {"both", "kwnil", "kwzero", "poszero"}) => c.ret \in {"one", "none"}) }
+Cases == CasesN(3)
+CasesThorough == CasesN(4)          \* the thorough tier: up to four arguments
 
 \* NullPack / what the client sends: the value that must reach the function in slot i
 Dflt(i) == 70 + i
